@@ -76,7 +76,7 @@ def _one_obligation(i):
     return base
 
 
-def _gen_function(prog, cfg, short, keep):
+def _gen_function(prog, cfg, short, keep, _retried=False):
     jobs = []
     meta = {"functions": [], "assumptions": set(), "models": set(), "bounded": set(), "summarised": set(),
             "contracts_used": set(), "trusted_contracts": []}
@@ -143,6 +143,26 @@ def _gen_function(prog, cfg, short, keep):
             s.add(h)
         jobs.append({"name": short + ":vacuity:precondition-satisfiable", "kind": "vacuity", "text": s.to_smt2(),
                      "func": short, "expect": "sat"})
+    if not _retried and not keep:
+        # Obligations failed and some contract-less helper of the module was treated as an opaque operation: try once more
+        # with those helpers inlined (unless a contract counts calls to them).  Green runs are unaffected.
+        bad = [j for j in jobs if j.get("kind") not in ("cover",) and not j.get("presolved") and not j.get("canary") and
+               ((j.get("result") or {}).get("status") not in (None, "unsat") or j.get("status") == "failed")]
+        helpers = set(getattr(v, "abstracted_inmodule", ()))
+        if bad:
+            tracked = set(v.tracked_events()) if hasattr(v, "tracked_events") else set()
+            helpers = sorted(h for h in helpers if prog.short(h) not in tracked)
+            if True:
+                cfg2 = dict(cfg or {})
+                cfg2["inline"] = list(cfg2.get("inline", ())) + helpers
+                cfg2["auto_unroll"] = 4   # unannotated, non-summarisable loops: unrolled under an unwinding obligation
+                j2, m2 = _gen_function(prog, cfg2, short, keep, _retried=True)
+                bad2 = [j for j in j2 if j.get("kind") not in ("cover",) and not j.get("presolved") and not j.get("canary") and
+                        ((j.get("result") or {}).get("status") not in (None, "unsat") or j.get("status") == "failed")]
+                if not bad2:
+                    m2["assumptions"].add("%s: verified on a second attempt with contract-less helpers inlined (%s) and unannotated loops unrolled 4x under unwinding obligations" % (
+                        short, ", ".join(prog.short(h) for h in helpers) or "none"))
+                    return j2, m2
     meta["functions"].append({"function": short, "obligations": len(obs), "gen_ms": int((time.time() - t0) * 1000),
                               "file": f.file.replace("/repo/", "") if f.file else None,
                               "spec_function": bool(f.spec)})
